@@ -407,6 +407,54 @@ def run_recursive(R: Recorder, case: dict[str, Any], verbose: bool = False) -> N
     R.monitor("right-key", out["tag"] == (who, depth) and out["again_tag"] == (who, depth), where={"flavour": flavour, "kind": "wrong-arguments", "reentrant": True}, detail=f"chain({depth}) returned results tagged {out['tag']} / {out['again_tag']}", case=case)
 
 
+def run_cycle(R: Recorder, case: dict[str, Any], verbose: bool = False) -> None:
+    """sync flavours, re-entrant with the SAME key: a cycle-guarded resolver (a -> b -> a) stores key `a` from the nested call first and
+    again from the outer call, which ends last - `a` is the most recently used key then"""
+    from haiway import cache
+
+    flavour, limit = case["flavour"], case["limit"]
+    deps = {"a": ("b",), "b": ("a",), "c": (), "d": ()}
+    visiting: set[str] = set()
+    calls: list[str] = []
+
+    def body(name: str, again: Any) -> tuple[str, ...]:
+        calls.append(name)
+        if name in visiting:
+            return (name,)  # cycle guard
+        visiting.add(name)
+        try:
+            out: tuple[str, ...] = (name,)
+            for d in deps[name]:
+                out += again(d)
+            return out
+        finally:
+            visiting.discard(name)
+
+    if flavour == "sync":
+        @cache(limit=limit)
+        def resolve(name: str) -> tuple[str, ...]:
+            return body(name, resolve)
+        call = resolve
+    else:
+        class H(Receiver):
+            @cache(limit=limit)
+            def resolve(self, name: str) -> tuple[str, ...]:
+                return body(name, self.resolve)
+        call = H("A").resolve
+    first = call("a")  # a -> b -> a (guard)
+    for other in ("c", "d")[: limit - 1]:
+        call(other)  # `limit - 1` other keys: `a` is still among the `limit` most recently used, `b` is not
+    before = len(calls)
+    again = call("a")
+    R.case(case, nontrivial=True)
+    R.count("same_key_reentrant_histories")
+    if verbose:
+        print(calls, first, again)
+    where = {"flavour": flavour, "exp": "none", "receivers": "identity", "reentrant": True}
+    R.monitor("required-hit", len(calls) == before and again == first, where={**where, "kind": "miss-on-required-hit"},
+              detail=f"resolve('a') (a -> b -> a, cycle guarded), then {limit - 1} other key(s), then resolve('a') again with limit {limit}: the function was called again ({calls[before:]}); all calls {calls}", case=case)
+
+
 def run_inflight(R: Recorder, case: dict[str, Any], verbose: bool = False) -> None:
     """async flavours: a second call with the same key arrives while the first invocation is still running, after the clock advanced
     by a fraction / a multiple of the expiration: unexpired -> answered by the running invocation, expired -> a new invocation"""
@@ -495,6 +543,15 @@ def run_after_cancelled_invocation(R: Recorder, case: dict[str, Any], verbose: b
 
     async def body(who: str | None, x: int) -> Result:
         inv.append(x)
+        if how == "stale-count-success":
+            # the invocation absorbs a cancellation request of its own making (a step with a deadline of its own) and then succeeds: its
+            # finished task keeps a request count above zero for good - it still holds the value the function produced
+            asyncio.current_task().cancel()  # type: ignore[union-attr]
+            try:
+                await asyncio.sleep(0)
+            except asyncio.CancelledError:
+                pass
+            return Result((who, x, len(inv)))
         if len(inv) == 1:
             waits.append(asyncio.get_running_loop().create_future())
             await waits[0]
@@ -519,6 +576,9 @@ def run_after_cancelled_invocation(R: Recorder, case: dict[str, Any], verbose: b
         t1 = loop.create_task(call(1))
         for _ in range(3):
             await asyncio.sleep(0)
+        if how == "stale-count-success":
+            out["first"] = (await asyncio.gather(t1, return_exceptions=True))[0]
+            await later()
         if how == "awaited-future-cancelled":
             waits[0].cancel()
             out["first"] = (await asyncio.gather(t1, return_exceptions=True))[0]
@@ -542,6 +602,9 @@ def run_after_cancelled_invocation(R: Recorder, case: dict[str, Any], verbose: b
     later_res = out.get("later")
     ok = isinstance(later_res, Result) and later_res.tag[1] == 1
     R.monitor("right-key", ok, where={**where, "kind": "not-a-produced-value", "who": "later"}, detail=f"the first invocation ended cancelled ({how}); a later call of the same key received {later_res!r}; invocations {inv}", case=case)
+    if how == "stale-count-success":
+        R.monitor("required-hit", len(inv) == 1 and later_res is out.get("first"), where={**where, "kind": "miss-on-required-hit"},
+                  detail=f"the first invocation succeeded (its task carries a stale cancellation count); a later call of the cached key made {len(inv) - 1} new invocation(s); same object: {later_res is out.get('first')}", case=case)
 
 
 def run_scoped(R: Recorder, case: dict[str, Any], verbose: bool = False) -> None:
@@ -702,15 +765,18 @@ def run(R: Recorder, tier: str, seed: int, shard: int, nshards: int) -> None:
                     run_recursive(R, {"recursive": True, "flavour": flavour, "limit": limit, "depth": depth})
             for depth in (1, 3):
                 run_recursive(R, {"recursive": True, "flavour": flavour, "limit": 1, "depth": depth, "bare": True})
+        for flavour, limit in itertools.product(("sync", "sync-method"), (2, 3)):
+            run_cycle(R, {"cycle": True, "flavour": flavour, "limit": limit})
         for flavour in ("async", "async-method"):
             for exp_, adv in itertools.product((1.0, 2.5), (0.25, 0.5, 1.0, 1.5, 2.5, 3.0, 8.0)):
                 for order in ("old-first", "new-first"):
                     run_inflight(R, {"inflight": True, "flavour": flavour, "exp": exp_, "advance": adv, "release": order})
         for flavour, teardown, bystander in itertools.product(("async", "async-method"), ("none", "cancelled", "body-fails"), ("scoped", "plain")):
             run_scoped(R, {"scoped": True, "flavour": flavour, "teardown": teardown, "bystander": bystander})
-        for flavour, how in itertools.product(("async", "async-method"), ("awaited-future-cancelled", "loop-shut-down")):
+        for flavour, how in itertools.product(("async", "async-method"), ("awaited-future-cancelled", "loop-shut-down", "stale-count-success")):
             run_after_cancelled_invocation(R, {"after_cancelled": True, "flavour": flavour, "how": how})
         argnames.check(R, "arguments", argname_wrappers())
+        argnames.check_injecting(R, "arguments", argname_wrappers())
         stacking.check_cache(R, "required-hit")
     R.flags["exhaustive_core"] = f"all histories up to length {EXH_LEN[tier]} over 3 keys + 2 advances x 4 flavours x limits 1-3 x expirations (none, 1, 2.5)"
     for i, case in enumerate(exhaustive(tier)):
@@ -728,11 +794,17 @@ def run(R: Recorder, tier: str, seed: int, shard: int, nshards: int) -> None:
 
 
 def replay(R: Recorder, case: dict[str, Any]) -> None:
+    if "injecting" in case:
+        argnames.check_injecting(R, "arguments", argname_wrappers())
+        return
     if "argnames" in case:
         argnames.check(R, "arguments", argname_wrappers(), only=case["argnames"])
         return
     if case.get("recursive"):
         run_recursive(R, case, verbose=True)
+        return
+    if case.get("cycle"):
+        run_cycle(R, case, verbose=True)
         return
     if case.get("inflight"):
         run_inflight(R, case, verbose=True)
